@@ -20,13 +20,20 @@ import (
 
 type KV struct{ K, V []byte }
 
-// Dump reads every live key of a store view through its iterator.
+// Dump reads every live key of a store view through its iterator. The store's
+// convention is that a frontier iterator also yields deleted keys, with a nil
+// value (tombstone) which every consumer treats as "absent"; those are skipped,
+// so the dump is the logical content.
 func Dump(d db.DB) []KV {
 	var out []KV
 	it := d.NewIterator(nil)
 	defer it.Release()
 	for it.Next() {
-		out = append(out, KV{append([]byte(nil), it.Key()...), append([]byte(nil), it.Value()...)})
+		v := it.Value()
+		if v == nil {
+			continue
+		}
+		out = append(out, KV{append([]byte(nil), it.Key()...), append([]byte{}, v...)})
 	}
 	return out
 }
